@@ -212,7 +212,8 @@ Qed.
 
 Lemma set_diti_ext w i : wl_ext w (fst (set_diti w i)).
 Proof.
-  unfold set_diti. destruct (last_opt (w_recs w)) as [r|].
+  unfold set_diti. destruct (i <? 0)%Z; [apply wl_ext_refl|].
+  destruct (last_opt (w_recs w)) as [r|].
   - destruct (is_break_like r); [|apply wl_ext_refl]. apply wl_ext_emit. repeat constructor.
   - apply wl_ext_emit. repeat constructor.
 Qed.
@@ -697,7 +698,7 @@ Proof. intro H. apply wosim_same, emit_sim_same. exact H. Qed.
 
 Lemma set_diti_sim w1 w2 i : wl_sim w1 w2 -> wosim (set_diti w1 i) (set_diti w2 i).
 Proof.
-  intro H. unfold set_diti.
+  intro H. unfold set_diti. destruct (i <? 0)%Z; [apply wosim_same; exact H|].
   pose proof (Forall2_last_opt _ _ _ (proj2 (proj2 (proj2 (proj2 (proj2 H)))))) as HL.
   destruct (last_opt (w_recs w1)) as [r1|], (last_opt (w_recs w2)) as [r2|]; try contradiction.
   - rewrite <- (rec_sim_break _ _ _ HL).
